@@ -251,6 +251,10 @@ def simulate_replay(ctx, rp, name, tag, constants, num, depth=400):
         per_worker = max(1, num // TLC_WORKERS)
         res = ctx.tlc(SPEC, SPEC, cfg_for(ctx, name, tag, constants), tag, workers=TLC_WORKERS, timeout=3000,
                       simulate="file=%s/t,num=%d" % (simdir, per_worker), depth=depth, seed=ctx.seed, coverage=False)
+        m = re.search(r"The number of states generated: (\d+)", res.out)
+        if m:
+            ctx.models[-1]["states_checked"] = int(m.group(1))
+            ctx.transitions += int(m.group(1))
         if res.violation:
             ctx.tlc_violation(res, "%s:%s" % (SPEC, tag))
             return
@@ -262,7 +266,7 @@ def simulate_replay(ctx, rp, name, tag, constants, num, depth=400):
             if i < 0:
                 continue
             body = txt[txt.index("==", i) + 2:]
-            body = body[:body.rfind("====")].strip()
+            body = re.sub(r"\n=+\s*\Z", "", body).strip()
             s = vlib.parse_state_text(body)
             key = vlib.canon(s["script"])
             if s.get("nph") == "done" and key not in seen:
@@ -327,6 +331,10 @@ def run(ctx):
         # random programs far beyond the exhaustive bound, invariants checked and every program replayed
         simulate_replay(ctx, rp, "big", "sim_big", None, num=4000)
         simulate_replay(ctx, rp, "mutex", "sim_mutex", dict(N=4, MaxSteps=5, K=2, NatSteps=6), num=2000)
+        simulate_replay(ctx, rp, "nested", "sim_nested", dict(
+            N=5, MaxSteps=5, K=2, Roots=3, NatSteps=5,
+            Kinds='{"pa", "rd", "ra", "aw", "sd", "sa", "sc", "st", "bd", "ba", "pk", "up"}',
+            NatKinds='{"sd", "rd", "up"}'), num=2000)
     nested_strict_probe(ctx)
     sh = ctx.extra.get("program_shapes", {})
     for k in ("with_discarded_readying", "pause_with_others_queued", "deque_len_ge2_seen", "resolve_releasing_ge2",
